@@ -48,24 +48,26 @@ def run(check: Check):
   check.ob('R-SEED.global', ('fedjax/core/*', '<all functions>'), 'global RNG calls in fedjax/core', n_glob == 0,
            'none' if n_glob == 0 else f'{n_glob} call(s)', nontrivial=False)
   # ---- permutation invariant of buf
-  buf_defs = [d for ds in ff.rd.defs_at.values() for d in ds if d.name == 'buf']
-  ok_arange = len(buf_defs) == 1 and isinstance(buf_defs[0].value, ast.Call) and ff.ext(buf_defs[0].value.func) == 'numpy.arange' and txt(
-      buf_defs[0].value.args[0]) == 'self._data_size'
+  buf_defs = [d for ds in ff.rd.defs_at.values() for d in ds if isinstance(d.value, ast.Call) and ff.ext(d.value.func) == 'numpy.arange']
+  ok_arange = len(buf_defs) == 1 and txt(buf_defs[0].value.args[0]) == 'self._data_size'
+  BUF = buf_defs[0].name if buf_defs else None
+  if ok_arange:
+    ok_arange = len([d for ds in ff.rd.defs_at.values() for d in ds if d.name == BUF]) == 1
   writes = []
   for n in ff.cfg.nodes:
     if n.ast is None:
       continue
     for x in n.walk():
-      if isinstance(x, ast.Subscript) and isinstance(x.ctx, ast.Store) and txt(x.value) == 'buf':
+      if isinstance(x, ast.Subscript) and isinstance(x.ctx, ast.Store) and txt(x.value) == BUF:
         writes.append(x)
-      if isinstance(x, ast.Call) and isinstance(x.func, ast.Attribute) and any(isinstance(a, ast.Name) and a.id == 'buf' for a in x.args):
+      if isinstance(x, ast.Call) and isinstance(x.func, ast.Attribute) and any(isinstance(a, ast.Name) and a.id == BUF for a in x.args):
         if not (x.func.attr == 'shuffle' and txt(x.func.value) == rng_name):
           if x.func.attr not in ('copy',):
             writes.append(x)
-      if isinstance(x, ast.Call) and isinstance(x.func, ast.Attribute) and txt(x.func.value) == 'buf' and x.func.attr in (
+      if isinstance(x, ast.Call) and isinstance(x.func, ast.Attribute) and txt(x.func.value) == BUF and x.func.attr in (
           'sort', 'fill', 'put', 'resize', 'itemset'):
         writes.append(x)
-  check.ob('R-PERM', fi, 'buf = np.arange(size); only rng.shuffle(buf) writes it', ok_arange and not writes,
+  check.ob('R-PERM', fi, 'index buffer = np.arange(size); only rng.shuffle(buffer) writes it', ok_arange and not writes,
            'buf always holds each index exactly once' if not writes else f'buf is also written by {txt(writes[0])[:50]}')
   # ---- roles recovered from the copy statement  IND[F:F+U] = buf[C:C+U]  (name agnostic)
   roles = None
@@ -100,7 +102,7 @@ def run(check: Check):
         if n.kind == 'stmt' and isinstance(n.ast, ast.Assign) and isinstance(n.ast.targets[0], ast.Subscript) and txt(n.ast.targets[0].value) == gather:
           bad_store = n.ast
     if bad_store is not None:
-      check.ob('R-PERM.window', fi, txt(bad_store)[:80], False,
+      check.ob('R-PERM.window', fi, 'indices[...] = <not a window of the permutation buffer>', False,
                'the batch indices are not copied from a window of the permutation buffer: examples can repeat within a pass '
                '(sampling with replacement)', node=bad_store)
     else:
@@ -155,12 +157,12 @@ def run(check: Check):
     ok_sh = arg_ok and exhausted and enabled and reset and refill
     why = (f'shuffles the index buffer={arg_ok}, only when {A} == 0={exhausted}, only when shuffling is enabled={enabled}, '
            f'cursor reset={reset}, window refilled={refill}')
-  check.ob('R-PERM.reshuffle', fi, f'if {A} == 0: [shuffle]; {C} = 0; {A} = {S}', ok_sh,
+  check.ob('R-PERM.reshuffle', fi, 'if available == 0: [shuffle]; cursor = 0; available = size', ok_sh,
            f'a new permutation is drawn exactly when the previous one is used up (never in the middle of a pass): {why}')
   # first pass starts exhausted (so it is shuffled): cursor initialised to the buffer size
   init_c = [d for ds in ff.rd.defs_at.values() for d in ds if d.name == C and d.kind == 'assign' and wmean._loop_of(ff, d.node.ast) is None]
   start_cursor = len(init_c) == 1 and txt(init_c[0].value) == S
-  check.ob('R-PERM.window', fi, f'{IND}[{F}:{F}+{U}] = {buf_name}[{C}:{C}+{U}]; {C} += {U}; {F} += {U}',
+  check.ob('R-PERM.window', fi, 'indices[f:f+u] = buffer[c:c+u]; c += u; f += u',
            avail_ok and size_ok and used_ok and adv and start_cursor,
            f'consecutive, non-overlapping windows of the current permutation are copied ({A} = {S} - {C}: {avail_ok}; {S} is the '
            f'buffer length: {size_ok}; {U} = min({A}, {D} - {F}): {used_ok}; both cursors advance by {U}: {adv}; the first pass '
@@ -183,7 +185,7 @@ def run(check: Check):
         if isinstance(x, ast.DictComp) and isinstance(x.value, ast.Subscript) and txt(x.value.slice) == IND and txt(x.generators[0].iter).endswith(
             'raw_examples.items()'):
           ok_y = True
-  check.ob('R-SIZE', fi, f'{IND} = zeros((batch_size,)); while {F} < {D}; yield {{k: v[{IND}]}}',
+  check.ob('R-SIZE', fi, 'indices = zeros((batch_size,)); while filled < size; yield {k: v[indices]}',
            ok_ind and des and wh and ok_y and filled0,
            f'every batch has exactly batch_size rows, all features gathered with the same indices (alloc={ok_ind}, target size='
            f'{des}, fill loop from 0={wh and filled0}, gather+preprocess={ok_y})')
